@@ -6,6 +6,7 @@
 For every seed: copies the *.py sources of /repo to a scratch directory outside /repo and /verif, applies the
 patch there (never in /repo), runs every registered property against the copy, removes the copy.
 Prints a matrix: seed -> properties that report (V = violation, U = inconclusive).
+A seed whose meta.json has "kind": "benign" is a behaviour-preserving edit: every property must stay silent on it.
 """
 import argparse
 import json
@@ -81,6 +82,20 @@ def main():
             target = name.split('/')[0].split('-')[0].split('_')[0][:3]
             if 'error' in res:
                 print('%-10s ERROR %s' % (name, res['error']))
+                continue
+            benign = False
+            try:
+                mp = os.path.join(a.dir, name, 'meta.json')
+                benign = json.load(open(mp)).get('kind') == 'benign'
+            except Exception:
+                pass
+            if benign:
+                fl = ' '.join('%s:%s' % (p, ('V' if r['V'] else '') + ('U' if r['U'] else '')) for p, r in sorted(res.items()))
+                print('%-12s %s  %s' % (name, 'FALSE-ALARM' if res else 'silent-ok  ', fl))
+                if a.v or res:
+                    for p, r in sorted(res.items()):
+                        for x in r['V'] + r['U']:
+                            print('      %s %s' % (p, x))
                 continue
             flags = ' '.join('%s:%s' % (p, ('V' if r['V'] else '') + ('U' if r['U'] else '')) for p, r in sorted(res.items()))
             hit = target in res
